@@ -295,6 +295,40 @@ func runC15(c *Ctx) {
 			c.report("reflection-panic:encode", "encoding a File with one field set panics: "+cl.Ret.PanicMsg, cl)
 		}
 	}
+	// the tables are constants: after the decoder and the encoder have been used
+	// (also with arrays and strings longer than the profile says) they must
+	// still be what was checked above
+	id2 := 100000
+	encodeEvents(c, p, sch, &id2, 1, false, true)
+	for _, ft := range []int{4, 2, 34} {
+		g := &fileGen{rng: newRng(c.Seed + int64(ft)), p: p, density: 0.9, maxList: 3, long: true, odd: true}
+		for k := 0; k < 6; k++ {
+			func() {
+				defer func() { recover() }()
+				var buf bytes.Buffer
+				fit.Encode(&buf, g.File(ft, k%2 == 0, -1, -1), archOf(k))
+			}()
+		}
+	}
+	after := exportTables(p, sch)
+	aj, _ := json.Marshal(after["msgs"])
+	bj, _ := json.Marshal(tab["msgs"])
+	if !bytes.Equal(aj, bj) {
+		diff := "?"
+		am, _ := after["msgs"].([]tMsg)
+		for i := range msgs {
+			if i < len(am) {
+				x, _ := json.Marshal(am[i])
+				y, _ := json.Marshal(msgs[i])
+				if !bytes.Equal(x, y) {
+					diff = fmt.Sprintf("message %d (%s)", msgs[i].M, msgs[i].Name)
+					break
+				}
+			}
+		}
+		c.report("tables:changed-at-run-time", "the profile tables are not the same after the library has been used (Encode / Decode changed a lookup-table entry): "+diff, map[string]interface{}{"where": diff})
+	}
+	c.Cov["tables_unchanged_after_use"] = bytes.Equal(aj, bj)
 	c.Cov["messages"] = len(msgs)
 	c.Cov["table_entries"] = nf
 	c.Cov["sdk_rows_read"] = len(sdk)
